@@ -73,6 +73,7 @@ class C05(SpecValueCheck):
         p.kinds = list(PER_KINDS) + ['INTEGER'] * 3 + ['IA5String', 'BIT STRING', 'OCTET STRING']
         p.real_wc = False
         p.very_wide_additions = True
+        p.stack_rate = 25
         p.root2 = True
         p.choice_tags_ascending_rate = 85
         return p
@@ -104,6 +105,30 @@ class C05(SpecValueCheck):
             m.types.append((name, Ty('INTEGER', rng=Rng(lo, hi))))
             items.append((name, sorted(set([lo, hi, lo + 1, hi - 1, (lo + hi) // 2, min(hi, lo + 255),
                                             min(hi, lo + 256), min(hi, lo + 65536)]))))
+        # serial application through references: a huge / two-octet / one-octet parent range narrowed to each of the
+        # smaller encoding classes (top level and as members), and a large parent SIZE narrowed at a member
+        m.types.append(('Big', Ty('INTEGER', rng=Rng(0, 2 ** 32 - 1))))
+        m.types.append(('W16', Ty('INTEGER', rng=Rng(0, 65535))))
+        m.types.append(('Neg', Ty('INTEGER', rng=Rng(-2 ** 40, 2 ** 40))))
+        narrow = [('Big', 0, 7), ('Big', 10, 20), ('Big', 0, 255), ('Big', 1, 256), ('Big', 0, 65535), ('Big', 1, 65536),
+                  ('Big', 5, 5), ('W16', 0, 255), ('W16', 0, 7), ('W16', 256, 511), ('Neg', -5, 5), ('Neg', -70000, 70000)]
+        mems = [Member('pad', Ty('BOOLEAN'))]
+        for i, (parent, lo, hi) in enumerate(narrow):
+            name = 'N%d' % i
+            m.types.append((name, Ty('REF', ref=parent, rng=Rng(lo, hi))))
+            items.append((name, sorted(set([lo, hi, (lo + hi) // 2, min(hi, lo + 1)]))))
+            mems.append(Member('n%d' % i, Ty('REF', ref=parent, rng=Rng(lo, hi))))
+        m.types.append(('NS', Ty('SEQUENCE', root=mems)))
+        items.append(('NS', [dict([('pad', True)] + [('n%d' % i, lo) for i, (_, lo, hi) in enumerate(narrow)]),
+                             dict([('pad', False)] + [('n%d' % i, hi) for i, (_, lo, hi) in enumerate(narrow)])]))
+        m.types.append(('St', Ty('IA5String', size=Rng(0, 70000))))
+        m.types.append(('Oc', Ty('OCTET STRING', size=Rng(0, 65536))))
+        m.types.append(('SS', Ty('SEQUENCE', root=[Member('pad', Ty('BOOLEAN')),
+                                                    Member('s', Ty('REF', ref='St', size=Rng(0, 10))),
+                                                    Member('o', Ty('REF', ref='Oc', size=Rng(2, 2))),
+                                                    Member('t', Ty('REF', ref='St', size=Rng(1, 300)))])))
+        items.append(('SS', [{'pad': True, 's': 'abc', 'o': b'\x01\x02', 't': 'x' * 300},
+                             {'pad': False, 's': 'abcdefghij', 'o': b'\xff\xfe', 't': 'y'}]))
         spec = Spec([m])
         if shard['ne']:
             for it in items:
